@@ -29,6 +29,8 @@ let snap (fl : M.flavour) (s : M.state) : string =
     (sz s.M.st_cur) sizes lab (sz s.M.st_fixups) (sz s.M.st_relocs) (sz s.M.st_addrs) (sz s.M.st_nodes)
     (sz o.M.os_options) (sz o.M.os_extra_sig) (sz o.M.os_extra_id) (if o.M.os_comment then 1 else 0)
 
+let bind_atomic = ref false
+
 let relkind (k : string) : M.relkind =
   match k with
   | "0" -> M.X86Jmp | "1" -> M.X86Jcc | "2" -> M.X86Call | "3" -> M.X86Lea false | "4" -> M.X86Lea true
@@ -39,6 +41,11 @@ let relkind (k : string) : M.relkind =
 let parse_cmd (ar : M.arch) (st : M.state) (t : string list) : M.cmd =
   match t with
   | ["J"; k; id] -> M.rel_cmd ar st (relkind k) (zs id)
+  | ["K"; addid; dst; bt; bid; it; iid; sh; seg; addr; size; off] ->
+    (match M.mem_cmd ar (zs addid) { M.m_dst = zs dst; m_btype = zs bt; m_bid = zs bid; m_itype = zs it; m_iid = zs iid; m_shift = zs sh;
+                                       m_seg = zs seg; m_addr = zs addr; m_size = zs size; m_off = zs off } with
+     | Some c -> c
+     | None -> failwith "mem path: stuck or unsupported form")
   | ["O"; o] -> M.CSetOptions (zs o)
   | ["X"; a; b] -> M.CSetExtra (zs a, zs b)
   | ["M"] -> M.CSetComment
@@ -48,7 +55,7 @@ let parse_cmd (ar : M.arch) (st : M.state) (t : string list) : M.cmd =
   | ["I"; "err"; e] -> M.CInst (M.EncErr (zs e))
   | ["L"] -> M.CNewLabel
   | ["NL"; nl; ty; pa; dup] -> M.CNewNamedLabel (zs nl, zs ty, zs pa, dup = "1")
-  | ["B"; id; pf] -> M.CBind (zs id, zs pf)
+  | ["B"; id; pf] -> if !bind_atomic then M.CBindAtomic (zs id, zs pf) else M.CBind (zs id, zs pf)
   | ["A"; m; n] -> M.CAlign (zs m, zs n)
   | ["E"; n] -> M.CEmbed (zs n)
   | ["EL"; id; s] -> M.CEmbedLabel (zs id, zs s)
@@ -64,14 +71,20 @@ let () =
     while true do
       let line = input_line stdin in
       if String.length line > 1 && line.[0] = 'T' then
-        print_endline ("T " ^ String.concat " " (List.map sz (M.model_constants @ M.path_constants)))
+        print_endline ("T " ^ String.concat " " (List.map sz (M.model_constants @ M.path_constants @ M.mem_path_constants)))
+      else if String.length line > 1 && line.[0] = 'P' then begin
+        bind_atomic := (field (split line) "bind_atomic" = "1");
+        print_endline line
+      end
       else if String.length line > 1 && line.[0] = 'N' then begin
         let t = split line in
         fl := (match field t "fl" with "0" -> M.FAssembler | "1" -> M.FBuilder | _ -> M.FCompiler);
         ar := (match field t "arch" with "0" -> M.X86_32 | "1" -> M.X86_64 | _ -> M.A64);
         h := (match field t "h" with "0" -> M.HNone | "1" -> M.HReturn | "2" -> M.HRecord | _ -> M.HThrow);
         let i = M.init_state in
-        st := { i with M.st_nodes = zs (field t "nod") };
+        let labs = field t "lab" in
+        let nlab = if labs = "-" then 0 else List.length (String.split_on_char ',' labs) in
+        st := { i with M.st_nodes = zs (field t "nod"); M.st_labels = List.init nlab (fun _ -> M.LUnbound (if field t "fm" = "1" then M.node_active_mark else [])) };   (* the labels a session starts with are the function's entry/exit labels: their nodes are in the list *)
         print_endline ("S " ^ snap !fl !st)
       end
       else if String.length line > 1 && line.[0] = 'C' then begin
